@@ -308,9 +308,6 @@ func (m *readerModel) ruleReadAhead(r *Rep, rule string) {
 			if e.Counts["close:done"] != 1 {
 				why["a return path does not close done exactly once: Close blocks for ever"] = true
 			}
-			if e.Counts["open:waiting"] > 0 && closed > 0 && e.Counts["send:working"] != 0 {
-				why["a decompressor is sent to working on the path that ends the goroutine"] = true
-			}
 		default: // looped back to the receive
 			if e.Counts["open:waiting"] != 1 || e.Counts["send:working"] != 1 {
 				why[fmt.Sprintf("a decompressor received from waiting is sent to working %d times before the next receive (%s)", e.Counts["send:working"], traceStr(e.Trace))] = true
